@@ -224,12 +224,17 @@ fn apply_ref(st: &mut RefState<'_>, spec: SpecId, op: Op) -> OpResult {
     }
 }
 
+/// Account info without the code body (its Debug output is not stable across processes).
+fn inf(i: &Option<revm_state::AccountInfo>) -> Option<(U256, u64, revm_primitives::B256)> {
+    i.as_ref().map(|i| (i.balance, i.nonce, i.code_hash))
+}
+
 fn digest_of(par: &ParallelState<&ExecDb>, st: &RefState<'_>) -> u64 {
     let mut h = std::collections::hash_map::DefaultHasher::new();
     // parallel side
     let mut accts: BTreeMap<Address, String> = BTreeMap::new();
     for kv in par.cache.accounts.iter() {
-        accts.insert(*kv.key(), format!("{:?}", kv.value()));
+        accts.insert(*kv.key(), format!("{:?}/{:?}", inf(&kv.value().account), kv.value().status));
     }
     format!("{accts:?}").hash(&mut h);
     let mut stor: BTreeMap<Address, BTreeMap<U256, U256>> = BTreeMap::new();
@@ -240,13 +245,21 @@ fn digest_of(par: &ParallelState<&ExecDb>, st: &RefState<'_>) -> u64 {
     let codes: BTreeSet<_> = par.cache.contracts.iter().map(|kv| *kv.key()).collect();
     format!("{codes:?}").hash(&mut h);
     let tr: Option<BTreeMap<_, _>> =
-        par.transition_state.as_ref().map(|t| t.transitions.iter().map(|(a, t)| (*a, format!("{t:?}"))).collect());
+        par.transition_state.as_ref().map(|t| {
+            t.transitions
+                .iter()
+                .map(|(a, t)| {
+                    let st: BTreeMap<_, _> = t.storage.iter().map(|(k, v)| (*k, (v.previous_or_original_value, v.present_value))).collect();
+                    (*a, format!("{:?}/{:?}/{:?}/{:?}/{}/{st:?}", inf(&t.info), t.status, inf(&t.previous_info), t.previous_status, t.storage_was_destroyed))
+                })
+                .collect()
+        });
     format!("{tr:?}").hash(&mut h);
     hash_bundle(&par.bundle_state, &mut h);
     // reference side cache (what is loaded matters for its futures)
     let racc: BTreeMap<Address, String> = st.cache.accounts.iter().map(|(a, c)| {
         let storage: Option<BTreeMap<_, _>> = c.account.as_ref().map(|p| p.storage.iter().map(|(k, v)| (*k, *v)).collect());
-        (*a, format!("{:?}/{:?}/{:?}", c.status, c.account.as_ref().map(|p| &p.info), storage))
+        (*a, format!("{:?}/{:?}/{:?}", c.status, c.account.as_ref().map(|p| (p.info.balance, p.info.nonce, p.info.code_hash)), storage))
     }).collect();
     format!("{racc:?}").hash(&mut h);
     h.finish()
@@ -258,7 +271,7 @@ fn hash_bundle(b: &BundleState, h: &mut impl Hasher) {
         .iter()
         .map(|(a, acc)| {
             let st: BTreeMap<_, _> = acc.storage.iter().map(|(k, v)| (*k, *v)).collect();
-            (*a, format!("{:?}/{:?}/{:?}/{:?}", acc.info, acc.original_info, acc.status, st))
+            (*a, format!("{:?}/{:?}/{:?}/{:?}", inf(&acc.info), inf(&acc.original_info), acc.status, st))
         })
         .collect();
     format!("{s:?}").hash(h);
@@ -340,6 +353,8 @@ pub fn bfs_job(spec: SpecId, depth: usize) -> Job {
     let seq: SeqFn = Arc::new(move |part, deadline, only| {
         let base = Arc::new(world());
         let mut rep = SeqReport::default();
+        let depth = if only.is_some_and(|w| w["selftest"] == true) { depth.min(3) } else { depth };
+        let only = only.filter(|w| w.get("history").is_some());
         if let Some(w) = only {
             let hist: Vec<Op> = w["history"].as_array().map(|a| a.iter().filter_map(|s| Op::parse(s.as_str()?)).collect()).unwrap_or_default();
             rep.evaluations = 1;
